@@ -9,11 +9,21 @@ def run(verdict, wd, plans, seed, workers=8, maxsteps=3000):
     """plans: list of (kind, sessions).  Adds violations to verdict; returns a coverage dict."""
     cov = {'machine_sessions': 0, 'machine_forms': 0, 'machine_instructions': 0, 'machine_out_of_model': 0,
            'machine_mismatches': 0, 'machine_tlc_states': 0}
+    # a recorded session is about 0.3 MB of JSON and a multiple of that as TLC values: at most CHUNK sessions per
+    # TLC run (500 sessions in one run filled an 8 GB heap and never finished)
+    CHUNK = 100
+    pieces = []
     for i, plan in enumerate(plans):
         kind, count = plan[0], plan[1]
         extra = list(plan[2]) if len(plan) > 2 else []
+        c = 0
+        while count > 0:
+            pieces.append((kind, min(CHUNK, count), extra, seed + 11 * i + 7919 * c))
+            count -= CHUNK
+            c += 1
+    for i, (kind, count, extra, pseed) in enumerate(pieces):
         out = os.path.join(wd, 'mach%d.ndjson' % i)
-        p = vlib.harness(['machine', 'kind=' + kind, 'seed=%d' % (seed + 11 * i), 'count=%d' % count, 'out=' + out,
+        p = vlib.harness(['machine', 'kind=' + kind, 'seed=%d' % pseed, 'count=%d' % count, 'out=' + out,
                           'maxsteps=%d' % maxsteps] + extra, check=False, timeout=900)
         if p.returncode != 0:
             verdict.violation(['machine/abort/' + kind], 'the harness died while recording %s sessions (rc=%s)' % (kind, p.returncode),
@@ -32,6 +42,7 @@ def run(verdict, wd, plans, seed, workers=8, maxsteps=3000):
             ends[e['id']] = e
         if len(ends) != n:
             raise vlib.ToolError('Trace_Machine consumed %d of %d sessions' % (len(ends), n))
+        os.remove(out)
         cov['machine_sessions'] += n
         cov['machine_forms'] += sum(e['forms'] for e in ends.values())
         cov['machine_instructions'] += sum(e['steps'] for e in ends.values())
@@ -56,7 +67,7 @@ def run(verdict, wd, plans, seed, workers=8, maxsteps=3000):
             elif isinstance(m['exp'], list) and m['exp']:
                 detail = '/' + str(m['exp'][0])
             verdict.violation(['machine/%s%s' % (what, detail)], desc,
-                              {'kind': 'machine', 'plan': [kind, count, extra], 'seed': seed + 11 * i, 'mismatch': m})
+                              {'kind': 'machine', 'plan': [kind, count, extra], 'seed': pseed, 'mismatch': m})
     return cov
 
 
